@@ -57,6 +57,8 @@ fn main() {
         "behreplay" => behreplay::replay(&gets(&m, "family", ""), &gets(&m, "in", ""), &gets(&m, "out", "/tmp/icverif"), geti(&m, "limit", 0) as usize),
         "calendar" => cases::calendar(&gets(&m, "in", ""), &gets(&m, "out", "/tmp/icverif"), getb(&m, "thorough")),
         "grid" => cases::grid(&gets(&m, "in", ""), &gets(&m, "out", "/tmp/icverif")),
+        "langdump" => cases::langdump(&gets(&m, "out", "/tmp/icverif")),
+        "f4" => cases::f4(&gets(&m, "in", ""), &gets(&m, "out", "/tmp/icverif")),
         "runprog" => histrec::run_program(&gets(&m, "in", ""), &gets(&m, "out", "/tmp/icverif")),
         "histbeh" => histrec::replay_behaviours(
             &gets(&m, "in", ""),
